@@ -116,6 +116,16 @@ def run_scenario(sc, make_monitor, P, collect=None):
         if sc.final_dropall:
             do(("dropall",))
         do(("tick", sc.horizon))
+        if not sc.final_dropall and hasattr(mon, "late_add"):
+            # a subscriber that never left is still delivered to after all those sweeps
+            ev = mon.late_add()
+            if ev is not None:
+                rs = w.step(ev)
+                steps += len(rs)
+                for v in (mon.check_late_add(ev, rs, w) or []):
+                    v.history = sc.to_json()
+                    viols.append(v.to_json())
+                mon.observe(ev, [rs], [w])
         vs = mon.finish(w) or []
         for v in vs:
             v.history = sc.to_json()
